@@ -109,16 +109,22 @@ impl Kinematics for OPWKinematics {
                     let s_n;
                     if let Some(Singularity::A) = singularity {
                         let mut now = ik[s_idx];
-                        if are_angles_close(now[J5], 0.) {
+                        // The redundancy is between the model angles (sign corrections applied;
+                        // the constant offsets cancel in the differences below).
+                        let sign4 = self.parameters.sign_corrections[J4] as f64;
+                        let sign6 = self.parameters.sign_corrections[J6] as f64;
+                        let now_q5 = now[J5] * self.parameters.sign_corrections[J5] as f64
+                            - self.parameters.offsets[J5];
+                        if are_angles_close(now_q5, 0.) {
                             // J5 = 0 singlularity, J4 and J6 rotate same direction
-                            s = previous[J4] + previous[J6];
-                            s_n = now[J4] + now[J6];
+                            s = sign4 * previous[J4] + sign6 * previous[J6];
+                            s_n = sign4 * now[J4] + sign6 * now[J6];
                         } else {
                             // J5 = -180 or 180 singularity, even if the robot would need
                             // specific design to rotate J5 to this angle without self-colliding.
                             // J4 and J6 rotate in opposite directions
-                            s = previous[J4] - previous[J6];
-                            s_n = now[J4] - now[J6];
+                            s = sign4 * previous[J4] - sign6 * previous[J6];
+                            s_n = sign4 * now[J4] - sign6 * now[J6];
 
                             // Fix J5 sign to match the previous
                             normalize_near(&mut now[J5], previous[J5]);
@@ -133,8 +139,8 @@ impl Kinematics for OPWKinematics {
                         }
                         let j_d = angle / 2.0;
 
-                        now[J4] = previous[J4] + j_d;
-                        now[J6] = previous[J6] + j_d;
+                        now[J4] = previous[J4] + sign4 * j_d;
+                        now[J6] = previous[J6] + sign6 * j_d;
 
                         // Check last time if the pose is ok
                         let check_pose = self.forward(&now);
